@@ -1,0 +1,52 @@
+//! Verification-only hooks.  Compiled only with the `verif_hooks` cargo feature (off by default).
+//!
+//! Two thread-local hooks are provided:
+//!
+//! * a replacement for the handshake's random fill, so packet contents are reproducible and
+//!   every digest offset can be selected, and
+//! * a virtual session clock, so uptimes near 2^24 ms and 2^32 ms are reachable.
+//!
+//! With nothing installed on the current thread the library behaves exactly as without the feature.
+
+use std::cell::{Cell, RefCell};
+
+thread_local! {
+    static FILL: RefCell<Option<Box<dyn FnMut(&mut [u8])>>> = RefCell::new(None);
+    static CLOCK_OVERRIDE_MS: Cell<Option<u64>> = Cell::new(None);
+    static CLOCK_OFFSET_MS: Cell<u64> = Cell::new(0);
+}
+
+/// Installs (or with `None` removes) the replacement for the handshake's random fill on this thread.
+pub fn set_fill(hook: Option<Box<dyn FnMut(&mut [u8])>>) {
+    FILL.with(|f| *f.borrow_mut() = hook);
+}
+
+/// Sets the value sessions on this thread will see as "milliseconds since session start".
+/// `None` returns to the real clock (plus the offset set by `set_clock_offset_ms`).
+pub fn set_clock_ms(elapsed_ms: Option<u64>) {
+    CLOCK_OVERRIDE_MS.with(|c| c.set(elapsed_ms));
+}
+
+/// Adds a constant number of milliseconds to the real session clock on this thread.
+pub fn set_clock_offset_ms(offset_ms: u64) {
+    CLOCK_OFFSET_MS.with(|c| c.set(offset_ms));
+}
+
+#[doc(hidden)]
+pub fn fill(buffer: &mut [u8]) -> bool {
+    FILL.with(|f| match *f.borrow_mut() {
+        Some(ref mut hook) => {
+            hook(buffer);
+            true
+        }
+        None => false,
+    })
+}
+
+#[doc(hidden)]
+pub fn elapsed_ms(real_elapsed_ms: u64) -> u64 {
+    match CLOCK_OVERRIDE_MS.with(|c| c.get()) {
+        Some(x) => x,
+        None => real_elapsed_ms.wrapping_add(CLOCK_OFFSET_MS.with(|c| c.get())),
+    }
+}
